@@ -1,6 +1,6 @@
 //@file src/repr/edge_list/mod.rs
 // ---- C02: read-only queries of EdgeList, each equal to its definition over (V, A) = (0..order, has) ----
-// Under contract here: has_walk, is_sink, is_source.  (order, size, has_arc, has_edge, vertices, is_simple: edge_list_core;
+// Under contract here: has_walk, is_sink, is_source, and the src/op blanket impls is_isolated, sinks, sources.  (order, size, has_arc, has_edge, vertices, is_simple: edge_list_core;
 // converse, union, is_semicomplete, is_tournament: edge_list_ops.)
 // Not under contract: out_neighbors / in_neighbors (`filter_map`), arcs (`copied`), indegree / outdegree (`count`),
 // the degree sequences (trait default `degree` + `count`), is_regular (semidegree_sequence), is_complete (`complete` is
@@ -93,5 +93,112 @@ impl EdgeList {
                 lemma_edge_iter_items(*self, src);
             }
         }
+    @*/
+}
+
+// ---- blanket impls of src/op (`impl<D> Trait for D`), instantiated at D = EdgeList ----
+
+/// C02: u is a sink (no arc leaves it) / a source (no arc enters it)
+spec fn edge_sink(g: EdgeList, u: int) -> bool { forall|b: int| !g.has(u, b) }
+spec fn edge_source(g: EdgeList, v: int) -> bool { forall|a: int| !g.has(a, v) }
+/// `out` selects the sink predicate, `!out` the source predicate
+spec fn edge_end(g: EdgeList, out: bool, x: int) -> bool { if out { edge_sink(g, x) } else { edge_source(g, x) } }
+
+/// the sinks (out) / sources (!out) among the vertices below k, ascending: the defining value of `sinks` / `sources` (k = order)
+spec fn ends_below(g: EdgeList, out: bool, k: int) -> Seq<usize>
+    decreases k
+{
+    if k <= 0 { Seq::empty() }
+    else if edge_end(g, out, k - 1) { ends_below(g, out, k - 1).push((k - 1) as usize) }
+    else { ends_below(g, out, k - 1) }
+}
+
+/// `ends_below` is exactly the sinks / sources below k, strictly ascending (hence no repeats)
+proof fn lemma_ends_below(g: EdgeList, out: bool, k: int)
+    requires 0 <= k <= usize::MAX + 1,
+    ensures
+        forall|i: int| 0 <= i < ends_below(g, out, k).len() ==> (#[trigger] ends_below(g, out, k)[i]) < k && edge_end(g, out, ends_below(g, out, k)[i] as int),
+        forall|i: int, j: int| 0 <= i < j < ends_below(g, out, k).len() ==> ends_below(g, out, k)[i] < ends_below(g, out, k)[j],
+        forall|v: int| 0 <= v < k && edge_end(g, out, v) ==> ends_below(g, out, k).contains(v as usize),
+        ends_below(g, out, k).no_duplicates(),
+    decreases k
+{
+    if k > 0 {
+        lemma_ends_below(g, out, k - 1);
+        let p = ends_below(g, out, k - 1);
+        let s = ends_below(g, out, k);
+        assert forall|v: int| 0 <= v < k && edge_end(g, out, v) implies s.contains(v as usize) by {
+            if v < k - 1 {
+                assert(p.contains(v as usize));
+                let i = choose|i: int| 0 <= i < p.len() && p[i] == v as usize;
+                assert(s[i] == v as usize);
+            } else {
+                assert(s[s.len() - 1] == v as usize);
+            }
+        }
+    }
+}
+
+/// the vertex sequence 0, 1, .., n-1 (the items of `vertices()`, as stated by its contract in edge_list_core)
+spec fn evseq(n: nat) -> Seq<usize> { Seq::new(n, |i: int| i as usize) }
+
+/// trigger tag: names the pair (g, out) for `lemma_filter_ends`
+spec fn end_tag(g: EdgeList, out: bool) -> bool { true }
+
+/// vstd's model of `Filter`: the items are `filter_index` of a prefix of the source; over the vertex range with a
+/// predicate that decides `edge_end(g, out, .)` this is `ends_below`.  Broadcast because the filter iterator is the tail
+/// expression of `sinks` / `sources` and cannot be named in a hint.
+broadcast proof fn lemma_filter_ends(g: EdgeList, out: bool, n: int, pred: spec_fn(int) -> bool)
+    requires
+        0 <= n <= g.order,
+        forall|j: int| 0 <= j < n ==> pred(j) == edge_end(g, out, j),
+    ensures
+        #![trigger evseq(g.order as nat).take(n).filter_index(pred), end_tag(g, out)]
+        evseq(g.order as nat).take(n).filter_index(pred) == ends_below(g, out, n),
+    decreases n
+{
+    let rem = evseq(g.order as nat);
+    if n > 0 {
+        lemma_filter_ends(g, out, n - 1, pred);
+        assert(rem.take(n).drop_last() =~= rem.take(n - 1));
+        reveal_with_fuel(Seq::filter_index, 2);
+    }
+}
+
+impl EdgeList {
+    /*@fn impl=D trait=IsIsolated name=is_isolated file=src/op/is_isolated.rs
+    ensures
+        u < self.ord(),
+        r == (edge_sink(*self, u as int) && edge_source(*self, u as int)),
+    @*/
+
+    /*@fn impl=D trait=Sinks name=sinks file=src/op/sinks.rs
+    ensures
+        r.obeys_prophetic_iter_laws(),
+        r.decrease() is Some,
+        exists|k: int| 0 <= k <= self.ord() && r.remaining() == #[trigger] ends_below(*self, true, k),
+        r.will_return_none() ==> r.remaining() == ends_below(*self, true, self.ord()),
+    @closure 1 |x: &usize| -> (b: bool)
+    ensures
+        b == edge_sink(*self, *x as int),
+    @fn_start
+        broadcast use vstd::std_specs::iter::group_iter_axioms;
+        broadcast use lemma_filter_ends;
+        proof { assert(end_tag(*self, true)); assert(evseq(self.order as nat) == Seq::new(self.ord() as nat, |i: int| i as usize)); }
+    @*/
+
+    /*@fn impl=D trait=Sources name=sources file=src/op/sources.rs
+    ensures
+        r.obeys_prophetic_iter_laws(),
+        r.decrease() is Some,
+        exists|k: int| 0 <= k <= self.ord() && r.remaining() == #[trigger] ends_below(*self, false, k),
+        r.will_return_none() ==> r.remaining() == ends_below(*self, false, self.ord()),
+    @closure 1 |x: &usize| -> (b: bool)
+    ensures
+        b == edge_source(*self, *x as int),
+    @fn_start
+        broadcast use vstd::std_specs::iter::group_iter_axioms;
+        broadcast use lemma_filter_ends;
+        proof { assert(end_tag(*self, false)); assert(evseq(self.order as nat) == Seq::new(self.ord() as nat, |i: int| i as usize)); }
     @*/
 }
